@@ -134,6 +134,9 @@ impl Model {
                 return match (path.len(), v) {
                     (1, v) => Some(*v),
                     (2, MV::O(n)) if path[1] == "a" => Some(MV::S(*n)),
+                    // the synthesized `size` index: entries of an object, length of a scalar's text
+                    (2, MV::O(_)) if path[1] == "size" => Some(MV::S(1)),
+                    (2, MV::S(n)) if path[1] == "size" => Some(MV::S(n.to_string().len() as i64)),
                     _ => None,
                 };
             }
@@ -229,6 +232,12 @@ fn observe(rt: &dyn Runtime, model: &Model, st: &mut Stats) -> Result<(), Fail> 
         for k2 in KEYS {
             paths.push(vec![k, k2]);
         }
+    }
+    // names nobody defines but the value model synthesizes (`size` of any object / scalar): a layer
+    // must stay transparent for them, and resolve them only inside a value it really defines
+    paths.push(vec!["size"]);
+    for k in KEYS {
+        paths.push(vec![k, "size"]);
     }
     for p in &paths {
         st.lookups += 2;
@@ -687,7 +696,7 @@ impl Engine for C18 {
     }
 
     fn rule(&self) -> String {
-        "operations {push plain scope d, push sandboxed scope d, push global layer, pop, set_global k v, set_index k v} with k in {a,b}, v in {scalar, object}, d in the 9 maps over {a,b}->{absent, scalar, object} (28 letters) over 3 base data maps; ALL histories up to length 5 (quick) / 6 (thorough) are enumerated with unique written values (every read attributable to one write) and again, one step shallower, with the quantifier's two fixed values (scalar 7, object {a: 7}; equal values can meet), each executed on the real frame types and observed at its end (every prefix is itself enumerated), plus seeded histories of length 4-12 observed after every step; observation = get and try_get of all 6 paths of length 1-2, roots(), get_index of both keys; distinct_nontrivial = distinct abstract states reached, by hash of (layer-kind stack; for each path which layer answers and with what kind of value; counter kinds) — written values themselves are unique per operation and are not part of the state signature".into()
+        "operations {push plain scope d, push sandboxed scope d, push global layer, pop, set_global k v, set_index k v} with k in {a,b}, v in {scalar, object}, d in the 9 maps over {a,b}->{absent, scalar, object} (28 letters) over 3 base data maps; ALL histories up to length 5 (quick) / 6 (thorough) are enumerated with unique written values (every read attributable to one write) and again, one step shallower, with the quantifier's two fixed values (scalar 7, object {a: 7}; equal values can meet), each executed on the real frame types and observed at its end (every prefix is itself enumerated), plus seeded histories of length 4-12 observed after every step; observation = get and try_get of all 6 paths of length 1-2 over {a,b} plus `size`, `a.size`, `b.size` (the synthesized index nobody defines), roots(), get_index of both keys; distinct_nontrivial = distinct abstract states reached, by hash of (layer-kind stack; for each path which layer answers and with what kind of value; counter kinds) — written values themselves are unique per operation and are not part of the state signature".into()
     }
     fn assumptions(&self) -> Vec<String> {
         vec![
